@@ -521,6 +521,15 @@ def _logging_hooks(is_async):
     return {"response": [log_response]}
 
 
+def _classify_first(client, resp):
+    """An application layer that looks at the response before the usual path does (retry-on-errors wrappers, logging): the
+    same response is classified once more afterwards and must come out the same."""
+    try:
+        client.get_data(resp)
+    except Exception:  # noqa: whatever the first classification says, the judged one is the second
+        pass
+
+
 def build_client(variant, own_transport: bool, server: SimServer, yield_point=None, response_hook=False):
     """(client, names, patch-context-or-None)."""
     pkgname, is_async, tracer_kind = VARIANTS[variant]
@@ -682,6 +691,8 @@ def _run_workload(ch, variant, callers, uploads_spec, server_factory, own_transp
     sent_upload_ids: set = set()
     replaced_streams: Dict[int, Dict[int, bytes]] = {}
 
+    kept_lists: Dict[int, list] = {}
+
     def at_call_time(rec: CallRec, q, op, variables, args):
         """What the caller does right before issuing the call: rewind re-used uploads, re-use and edit its previous model.
         Also takes the snapshot of what the reference model expects for exactly this moment."""
@@ -717,6 +728,37 @@ def _run_workload(ch, variant, callers, uploads_spec, server_factory, own_transp
                 info["model_objects_reused"] = info.get("model_objects_reused", 0) + 1
             else:
                 kept_models[rec.caller] = (args["input"], rec.spec["multipart"])
+        if rec.spec["via"] == "execute" and not rec.spec["multipart"] and isinstance(variables, dict):
+            # the caller keeps a LIST of input models between its calls (a batch it sends again after editing one entry through
+            # the reference it kept): the body must show the models as they are now
+            prev_l = kept_lists.get(rec.caller)
+            if prev_l is not None:
+                m_ = prev_l[0]
+                for fn_ in sorted(getattr(m_, "model_fields_set", ())):
+                    if isinstance(getattr(m_, fn_, None), str) and type(getattr(m_, fn_)) is str:
+                        try:
+                            setattr(m_, fn_, "edited-for-%s" % rec.nonce)
+                        except Exception:
+                            pass
+                        break
+                variables = dict(variables)
+                variables["kept_list"] = prev_l
+                rec.inputs = (q, op, variables, rec.inputs[3])
+                info["model_lists_reused"] = info.get("model_lists_reused", 0) + 1
+            else:
+                for v_ in variables.values():
+                    if isinstance(v_, list) and v_ and hasattr(v_[0], "model_fields_set") and not _uploads_in(v_):
+                        kept_lists[rec.caller] = v_
+                        break
+                else:
+                    # (no such list among the variables: a model found at top level is put into a batch of its own)
+                    for v_ in list(variables.values()):
+                        if hasattr(v_, "model_fields_set") and not _uploads_in(v_):
+                            kept_lists[rec.caller] = [v_]
+                            variables = dict(variables)
+                            variables["kept_list"] = kept_lists[rec.caller]
+                            rec.inputs = (q, op, variables, rec.inputs[3])
+                            break
         for o_ in _uploads_in(variables):
             sent_upload_ids.add(id(o_))
         try:
@@ -780,6 +822,8 @@ def _run_workload(ch, variant, callers, uploads_spec, server_factory, own_transp
                         if rec.spec["via"] == "execute":
                             resp = await client.execute(q, op, variables, **kw)
                             rec.response = resp
+                            if sched_knobs.get("classify_twice"):
+                                _classify_first(client, resp)
                             return ("ok", _outcome_value(client.get_data(resp)))
                         if rec.spec["via"] == "custom_query":
                             val = await client.query(*custom_fields_for(client, rec), operation_name="zz_nonce_%s" % rec.nonce)
@@ -891,6 +935,8 @@ def _run_workload(ch, variant, callers, uploads_spec, server_factory, own_transp
                     if rec.spec["via"] == "execute":
                         resp = client.execute(q, op, variables, **kw)
                         rec.response = resp
+                        if sched_knobs.get("classify_twice"):
+                            _classify_first(client, resp)
                         rec.outcome = ("ok", _outcome_value(client.get_data(resp)))
                     elif rec.spec["via"] == "custom_query":
                         val = client.query(*custom_fields_for(client, rec), operation_name="zz_nonce_%s" % rec.nonce)
